@@ -73,6 +73,10 @@ func vPosNode(tag string) *posNav {
 		vAssume(len(nm) >= 1)
 		vAssume(vOr(nm[0] == 'a', nm[0] == 'b'))
 		n.name = nm
+		if n.kind == AttributeNode {
+			// attributes of one element may share a local name under different prefixes
+			n.prefix = []string{"", "p"}[vConc(vInt(tag+"pfx", 0, 1))]
+		}
 	case TextNode, CommentNode:
 		// navigators in the field report a text or comment node's data as its local
 		// name (or nothing): either is allowed
@@ -116,10 +120,11 @@ func H_identity() {
 		vObserve("same-node", true)
 		vAssert(hx == hy, "one-node-one-key")
 	case vSamePath(x, y) && xa && ya:
-		// two attributes of one element are the same node iff they have the same name
-		vAssume(vImplies(x.name == y.name, x.value == y.value))
+		// two attributes of one element are the same node iff they have the same qualified name
+		same := vAnd(x.name == y.name, x.prefix == y.prefix)
+		vAssume(vImplies(same, x.value == y.value))
 		vObserve("same-element-attributes", true)
-		vAssert((hx == hy) == (x.name == y.name), "attributes-identified-by-name")
+		vAssert((hx == hy) == same, "attributes-identified-by-qualified-name")
 	default:
 		vObserve("same-node", false)
 		vAssert(hx != hy, "different-nodes-different-keys")
